@@ -9,10 +9,14 @@ from specs import dalvik_formats as F
 
 DEX = "androguard/core/dex/__init__.py"
 META = {
-    "technique": 'contract-based deductive verification: symbolic execution of the real functions against sidecar contracts (z3/cvc5) for the proved units; bounded contract evaluation (enumerated scope / independent writer) for the rest',
+    "technique": 'contract-based deductive verification: symbolic execution of the real functions against sidecar contracts (z3/cvc5) for the proved units, inductive loop invariants and termination variants on the real loops (unbounded in length and iteration count); bounded contract evaluation (enumerated scope / independent writer) for the rest',
     "level": "other",
     "partial": True,
-    "level_text": "Proof (one arbitrary sweep step, all byte contents): LinearSweepAlgorithm.get_instructions is started at a concrete "
+    "level_text": "Loop contract (unbounded): the sweep loop of LinearSweepAlgorithm.get_instructions on code of any length and "
+                  "content, any declared size and start index, with the decoders replaced by their contract: invariant start <= idx "
+                  "<= max_idx, variant max_idx - idx (termination), every yielded object is the one decoded at the current index "
+                  "and lies inside the code, everything else is InvalidInstruction; DCode.get_instructions (the caching wrapper) "
+                  "reports what the sweep reports on every call. Proof (one arbitrary sweep step, all byte contents): LinearSweepAlgorithm.get_instructions is started at a concrete "
                   "position of a buffer of 2..16 symbolic bytes with the real dispatch tables, instruction and payload classes; the "
                   "first object it yields is proved to be of the class the Dalvik table selects for the first code unit, to have a "
                   "positive length, to end inside the code and to re-encode to the bytes at its offset, and every other outcome is "
